@@ -26,6 +26,7 @@ from fractions import Fraction
 
 from .. import astutil as A
 from ..alg import HistSet, Interp, Poly, Undecided, fn, to_poly
+from ..alg import tensorlib_obj as _tensorlib_obj
 from ..dep import Deps
 from ..prov import subscriptions
 
@@ -706,7 +707,7 @@ def _axes_and_history(ctx, rid, repo, prs):
     ]
     for code, fast, slow, _node in sorted(prs, key=lambda t: str(t[0])):
         ext = listnp.externals()
-        ext.update({"subscribe": lambda a, k: PyFunc(lambda a2, k2: None, "subscriber"), "get_backend": lambda a, k: (Obj("tensorlib"), None)})
+        ext.update({"subscribe": lambda a, k: PyFunc(lambda a2, k2: None, "subscriber"), "get_backend": (lambda tl_: (lambda a, k: (tl_, None)))(_tensorlib_obj())})
         region = AutoRegion()
         w = World(ext, region=region, module_env={"pyhf": Obj("pyhf", {"default_backend": Obj("default_backend")}), "events": Obj("events"), "math": Obj("math")})
         w.add_class(fast).add_class(slow)
